@@ -3,6 +3,7 @@
 # Confirms a seeded change in a fresh scratch worktree, then runs the govc checks against /repo with the patch applied.
 set -u
 export GOFLAGS=-mod=mod GOPROXY=off GOSUMDB=off GOTOOLCHAIN=local
+if [ -n "$(git -C /repo status --porcelain)" ]; then echo "seedcheck: /repo has uncommitted changes; commit them first"; exit 3; fi
 ID=$1; SRC=$2; PKG=$3; DEMO=$4; TEST=$5; shift 5; PROPS="$@"
 DST=/verif/seeded/$ID
 mkdir -p $DST && cp $SRC/patch.diff $SRC/meta.json $SRC/$DEMO $DST/ 2>/dev/null
